@@ -159,11 +159,20 @@ impl<'l> CelCompiler<'l> {
                     expr_node
                         .into_bytecode()
                         .into_iter()
+                        // The condition is reduced to its truthiness first (like `||`/`&&`),
+                        // and a failing condition skips both clauses and is the result:
+                        //   cond TEST DUP JMPC(F)->L1 POP <true> JMP->L2
+                        //   L1: DUP NOT JMPC(F)->L2 POP <false>  L2:
                         .chain(
-                            [PreResolvedCodePoint::JmpCond {
-                                when: JmpWhen::False,
-                                label: after_true_clause,
-                            }]
+                            [
+                                ByteCode::Test.into(),
+                                ByteCode::Dup.into(),
+                                PreResolvedCodePoint::JmpCond {
+                                    when: JmpWhen::False,
+                                    label: after_true_clause,
+                                },
+                                ByteCode::Pop.into(),
+                            ]
                             .into_iter(),
                         )
                         .chain(true_clause_bytecode.into_iter())
@@ -171,6 +180,13 @@ impl<'l> CelCompiler<'l> {
                             [
                                 PreResolvedCodePoint::Jmp { label: end_label },
                                 PreResolvedCodePoint::Label(after_true_clause),
+                                ByteCode::Dup.into(),
+                                ByteCode::Not.into(),
+                                PreResolvedCodePoint::JmpCond {
+                                    when: JmpWhen::False,
+                                    label: end_label,
+                                },
+                                ByteCode::Pop.into(),
                             ]
                             .into_iter(),
                         )
